@@ -57,6 +57,9 @@ def tmCpOp (cp : ControlPoints Float) (tok : String) : Option (ControlPoints Flo
     match tok.splitOn ":" with
     | ["T", t, b] =>
       some (cp.addTiming (TimingPoint.new (tmF64OfHex t) (tmF64OfHex b) false TimeSignature.simpleQuadruple), none)
+    | ["T", t, b, om, num] =>
+      some (cp.addTiming (TimingPoint.new (tmF64OfHex t) (tmF64OfHex b) (om == "1")
+        ((TimeSignature.new (num.toInt?.getD 4)).getD TimeSignature.simpleQuadruple)), none)
     | ["D", t, sv, ticks] =>
       some (cp.addDifficulty (DifficultyPoint.new (tmF64OfHex t) (if ticks == "1" then 1 else tmNanF) (tmF64OfHex sv)), none)
     | ["E", t, k, sc] =>
